@@ -56,13 +56,23 @@ def make_callables(problem, const_as_numbers=True):
     """(fx, coeffs list) to hand to the library: fresh arrays on every call (benign callbacks)."""
     fx = lambda x: np.array(rhs(problem, x), dtype=float)  # noqa: E731
     coeffs = []
+    flav = int(problem.get("cflav", 0))  # how the caller writes constants: floats; whole numbers as ints; NumPy scalars; one ndarray
     for c in problem["coeffs"]:
+        v = None
         if c[0] == "const" and const_as_numbers:
-            coeffs.append(float(c[1]))
+            v = float(c[1])
         elif c[0] == "scaled" and c[2][0] == "const" and const_as_numbers:
-            coeffs.append(float(c[1] * c[2][1]))
-        else:
+            v = float(c[1] * c[2][1])
+        if v is None:
             coeffs.append(lambda x, c=c: np.array(coeff_eval(c, x), dtype=float))
+        elif flav == 1 and v == int(v) and abs(v) < 2**53:
+            coeffs.append(int(v))
+        elif flav == 2:
+            coeffs.append(np.float64(v))
+        else:
+            coeffs.append(v)
+    if flav == 3 and all(not callable(c) for c in coeffs):
+        coeffs = np.array(coeffs, dtype=float)
     return fx, coeffs
 
 
@@ -252,7 +262,14 @@ def gen_problem(rng, with_transform):
     bc = [list(c) for c in bc]
     rng.shuffle(bc)  # the order in which the caller lists the conditions is arbitrary (upper end first, interleaved, ...)
     alts = gen_alternates(rng, tspec, rng.choice([0, 1, 2, 2])) if tspec is not None and tspec[0] != "identity" else []
-    return {"order": order, "a": round(a, 4), "b": round(b, 4), "terms": terms, "coeffs": coeffs, "bc": bc, "tspec": tspec, "alts": alts, "amp": amp,
+    cflav = rng.choice([0, 0, 1, 2, 3])
+    if cflav == 1:
+        # whole-number constants (y'' - 2 y' + 3 y = f), which the caller then writes as Python ints
+        for k, c in enumerate(coeffs[:-1]):
+            if c[0] == "const" and c[1] != 0 and rng.random() < 0.7:
+                # (second order keeps a0 <= 0: the coercive sign pattern that makes every boundary set uniquely solvable)
+                c[1] = float(rng.choice([-3, -2, -1] if (order == 2 and k == 0) else [-3, -2, -1, 1, 2, 3]))
+    return {"order": order, "a": round(a, 4), "b": round(b, 4), "terms": terms, "coeffs": coeffs, "bc": bc, "tspec": tspec, "alts": alts, "amp": amp, "cflav": cflav,
             "n": rng.randint(8, 30), "tol": rng.choice([1e-4, 1e-6, 1e-6])}
 
 
